@@ -220,6 +220,88 @@ def boson_search(chk, n_cases):
                      f"(epsrel {eps}; memory setting dkmax={dkmax}, add_correlation_time={tau})", info)
 
 
+def finite_mode_search(chk, n_cases):
+    """second half of the property: a bath of finitely many harmonic modes, given through its autocorrelation function,
+    and a system that does NOT commute with the coupling, against the explicitly simulated system + modes evolution
+    with the same symmetric splitting  U_S(dt/2) exp(-i (H_B + O x X) dt) U_S(dt/2)  (Fock space truncated where the
+    thermal + displaced occupation is < 1e-12)."""
+    from scipy.linalg import expm
+    rng = chk.rng
+    for it in range(n_cases):
+        d = rng.choice([2, 2, 3])
+        K = rng.choice([1, 1, 2])
+        T = rng.choice([0.0, 0.0, 0.3, 0.5])
+        modes = [(rng.choice([1.0, 1.3, 2.1, 2.6]), rng.choice([0.1, 0.2, 0.3])) for _ in range(K)]
+        nf = 14 if K == 1 else 10
+        o = np.array([rng.choice([-1.0, -0.5, 0.0, 0.5, 1.0]) for _ in range(d)])
+        if len(set(o)) == 1:
+            o[0] += 0.5
+        V = haar(rng, d) if rng.random() < 0.5 else np.eye(d)
+        O = V @ np.diag(o) @ V.conj().T
+        O = (O + O.conj().T) / 2
+        a_ = np.array([[rng.gauss(0, 1) + 1j * rng.gauss(0, 1) for _ in range(d)] for _ in range(d)])
+        H = (a_ + a_.conj().T) / 3                       # generic: does not commute with O
+        b_ = np.array([[rng.gauss(0, 1) + 1j * rng.gauss(0, 1) for _ in range(d)] for _ in range(d)])
+        rho0 = b_ @ b_.conj().T
+        rho0 /= np.trace(rho0)
+        dt = rng.choice([0.1, 0.2])
+        n = rng.randint(2, 6)
+        mem = rng.choice(["full", "full", "cutoff>=n", "tcut>=n"])
+
+        def C(t, modes=modes, T=T):
+            t = np.asarray(t, dtype=float)
+            out = 0.0
+            for w, g in modes:
+                coth = 1.0 if T == 0 else 1.0 / np.tanh(w / (2 * T))
+                out = out + g * g * (coth * np.cos(w * t) - 1j * np.sin(w * t))
+            return out
+        info = {"kind": "finite-modes", "d": d, "modes": modes, "T": T, "dt": dt, "n": n, "memory": mem, "rotated_coupling": not np.allclose(V, np.eye(d))}
+        eps = 1e-9
+        par = {"full": lambda: oqupy.TempoParameters(dt=dt, epsrel=eps, dkmax=None),
+               "cutoff>=n": lambda: oqupy.TempoParameters(dt=dt, epsrel=eps, dkmax=n + rng.randint(0, 2)),
+               "tcut>=n": lambda: oqupy.TempoParameters(dt=dt, epsrel=eps, tcut=(n + 0.3) * dt, add_correlation_time=0.15)}[mem]()
+        try:
+            bath = oqupy.Bath(O, oqupy.CustomCorrelations(C))
+            st_t = np.array(quiet(oqupy.Tempo(oqupy.System(H), bath, par, rho0, 0.0).compute, n * dt, progress_type="silent").states)
+            pt = quiet(oqupy.pt_tempo_compute, bath, 0.0, n * dt, parameters=par, progress_type="silent")
+            st_p = np.array(quiet(oqupy.compute_dynamics, oqupy.System(H), initial_state=rho0, process_tensor=pt, progress_type="silent").states)
+        except Exception as ex:
+            chk.fail("finite-modes-raises", f"Tempo/PtTempo raise {ex!r}", info)
+            continue
+        # explicit system + modes
+        lad = np.diag(np.sqrt(np.arange(1, nf)), 1)
+        eye = np.eye(nf)
+
+        def emb(op, k):
+            mats = [eye] * K
+            mats[k] = op
+            out = mats[0]
+            for m_ in mats[1:]:
+                out = np.kron(out, m_)
+            return out
+        HB = sum(w * emb(lad.T @ lad, k) for k, (w, g) in enumerate(modes))
+        X = sum(g * emb(lad + lad.T, k) for k, (w, g) in enumerate(modes))
+        Us = np.kron(expm(-1j * H * dt / 2), np.eye(nf ** K))
+        U = Us @ expm(-1j * (np.kron(np.eye(d), HB) + np.kron(O, X)) * dt) @ Us
+        th = None
+        for w, g in modes:
+            pw = np.array([1.0] + [0.0] * (nf - 1)) if T == 0 else np.exp(-w * np.arange(nf) / T)
+            pw = pw / pw.sum()
+            th = np.diag(pw) if th is None else np.kron(th, np.diag(pw))
+        R = np.kron(rho0, th)
+        worst = 0.0
+        for step in range(1, n + 1):
+            R = U @ R @ U.conj().T
+            want = np.trace(R.reshape(d, nf ** K, d, nf ** K), axis1=1, axis2=3)
+            worst = max(worst, np.abs(st_t[step] - want).max(), np.abs(st_p[step] - want).max())
+        chk.search_cases += 1
+        chk.count("finite_modes_K%d" % K)
+        chk.case(dict(info, max_dev=worst), ("modes", d, K, T, dt, n, mem, it))
+        if worst > 1e-6:
+            chk.fail("finite-modes", f"TEMPO / PT-TEMPO deviate from the explicitly simulated system + {K} mode(s) evolution by {worst:.2e} "
+                     f"(epsrel {eps}, memory {mem})", info)
+
+
 def run(chk):
     thorough = chk.tier == "thorough"
     chk.proofs()
@@ -233,13 +315,17 @@ def run(chk):
     c02.compare(chk, vals[:nb], expected[:nb], meta[:nb])
     compare_infl(chk, vals[nb:], expected[nb:], meta[nb:])
     boson_search(chk, 40 if (thorough or chk.disagreements or chk.broken) else 10)
+    finite_mode_search(chk, 24 if (thorough or chk.disagreements or chk.broken) else 6)
     return chk.finish(
         level="proof",
         trusted=["models: Model/Schedule.v, Model/Shapes.v, Model/PathSum.v; exp enters only as 'exp of a sum is the product of exps' (np.exp applied by the "
                  "harness to the model's exact exponent)",
-                 "search oracle: independent-boson closed form with Gamma from an independent quadrature of the object's own correlation()"],
+                 "search oracle: independent-boson closed form with Gamma from an independent quadrature of the object's own correlation()",
+                 "search oracle: explicit system + harmonic modes evolution in a truncated Fock space (10-14 levels per mode), same symmetric splitting"],
         rule="back-end path sums as in C02 (fewer); influence_matrix for dk in [-8,8], five dt, dkmax in {None,1,2,5,8}, add_correlation_time in "
              "{None,0,.17,1,inf}, with/without degeneracy positions (arguments bit-exact, matrix exact); independent-boson search over dimension "
-             "2-4, rotated bases, power-law / custom densities and correlations, T in {0,.2,2}, all memory settings; distinct = distinct configuration",
+             "2-4, rotated bases, power-law / custom densities and correlations, T in {0,.2,2}, all memory settings; finite-mode search: 1-2 modes given "
+             "through their autocorrelation function, generic non-commuting H, rotated couplings, T in {0,.3,.5}, full memory and cut-offs beyond the run, "
+             "Tempo and PtTempo vs explicit system+modes simulation at 1e-6; distinct = distinct configuration",
         assumptions=["quadrature accuracy and SVD truncation error are explored by the search, not proved",
-                     "the finite-mode (explicit oscillator) part of the property is covered only through C03's ancilla theorem, not by a bath model"])
+                     "the finite-mode part of the property is a search against an explicit simulation (no bath model in Coq; C03's joint-evolution theorem is its formal counterpart)"])
